@@ -3,6 +3,11 @@
 import json, subprocess
 ALL=[f"C{i:02d}" for i in range(1,20)]
 CLAIMED={
+ "C14": dict(
+   text="The C03 harnesses plus shutdown-while-shrinking and statistics-during-RPCs, every schedule within the deviation bound, executed in a -race build whose scheduler hands control between goroutines without creating a happens-before edge, so that the Go race detector judges each explored execution with exactly the program's own synchronisation.",
+   note="Trusted: the Go race detector (happens-before races only); the //go:norace hand-off (workers run with GOMAXPROCS=1). A report counts when both access stacks are in go-nfsd/go-journal code. Bounds: harness set, deviation bound 1/2. Replaces the property's free-running stress sub-clause by bounded-exhaustive schedules.",
+   technique="deviation-bounded schedule exploration of the implementation under a controlled scheduler, Go race detector as per-execution oracle",
+   ref="DESIGN.md 4 (C14)"),
  "C03": dict(
    text="14 harnesses of 2-3 client threads on the real server (journal logger/installer and shrinker included) explored exhaustively within a deviation bound under a cooperative scheduler that owns every mutex, condition variable, goroutine and disk operation; every complete execution is checked for linearizability (replies incl. post-op attributes and listings, final dump) against the reference file system by brute force; final-state fsck and cache/allocator audit.",
    note="Trusted: the scheduler shim; race-freedom of the harnesses (C14) for the happens-before state caching (cross-checked against an uncached search on two harnesses in every run); reference model. Bounds: 2-3 clients with 1-2 RPCs, deviation bound 1 (quick) / 2 (thorough): a deviation = preempting a runnable thread or running a journal daemon while a client could run.",
